@@ -473,6 +473,12 @@ func main() {
 		}
 		res.Note("time %s: %.1fs", p.Name, time.Since(t0).Seconds())
 	}
+	if c.only == "" || strings.HasPrefix(c.only, "subctx") {
+		t0 := time.Now()
+		c.subctxFamily(a.Seed)
+		c.shiftedWire(a.Seed)
+		res.Note("time subctx: %.1fs", time.Since(t0).Seconds())
+	}
 	c.runModel()
 	keys := make([]string, 0, len(c.specs))
 	for k := range c.specs {
